@@ -1388,13 +1388,15 @@ def run_error(spec):
         how = spec['eps'] % 4
         lst = None if how < 2 else [epsn[(spec['eps'] // 4) % len(epsn)]]
         detail = f'{head}: set_power_on_ruv({lst!r}, dv={dvarg!r}, zero_protection={zp})'
-        tag = '[eps-name-not-uppercase]' if lst and lst[0] != lst[0].upper() else ''
+        m2 = call(mm.set_power_on_ruv, m1, lst, dvarg, 0.01, None, zp, clause='set_power_on_ruv')
+        th = new_names(m2.parameters.names, m1.parameters.names)
+        # attribution tags (evidence based: the name tag only when the named epsilon was really not found, i.e. no theta
+        # was created for it)
+        tag = '[eps-name-not-uppercase]' if (lst and lst[0] != lst[0].upper() and not th) else ''
         if not tag and prior == 'time_varying':
             tag = '[after-time-varying]'
         if not tag and _guard_not_in_y(m1, yname):
             tag = '[zero-protection-symbol-not-in-Y]'
-        m2 = call(mm.set_power_on_ruv, m1, lst, dvarg, 0.01, None, zp, clause='set_power_on_ruv')
-        th = new_names(m2.parameters.names, m1.parameters.names)
         tv = {t: 0.4 + abs(_gval(i + 7, k, -1.1, 1.1)) for i, t in enumerate(th)}
         p2 = extend_point(m2, p1, k, new_params=tv)
         y0 = y_at(m2, p2, yname)
@@ -1434,8 +1436,9 @@ def run_error(spec):
         lst = None if how < 2 else [epsn[(spec['eps'] // 4) % len(epsn)]]
         same = bool(spec['same'] % 2)
         detail = f'{head}: set_iiv_on_ruv(dv={dvarg!r}, list_of_eps={lst!r}, same_eta={same})'
-        tag = '[eps-name-not-uppercase]' if lst and lst[0] != lst[0].upper() else ''
         m2 = call(mm.set_iiv_on_ruv, m1, dvarg, lst, same, clause='set_iiv_on_ruv')
+        # evidence based: the named epsilon was really not found (statements untouched)
+        tag = '[eps-name-not-uppercase]' if (lst and lst[0] != lst[0].upper() and m2.statements == m1.statements) else ''
         ne = new_names(m2.random_variables.etas.names, m1.random_variables.etas.names)
         tgt = epsn if lst is None else lst
         want = 1 if same else len(tgt)
@@ -1724,8 +1727,8 @@ def selfcheck():
 
 
 SUBCHECKS = [
-    SubCheck('covariate', lambda: COV_SPEC, run_covariate, quick=500, thorough=12000),
+    SubCheck('covariate', lambda: COV_SPEC, run_covariate, quick=400, thorough=12000),
     SubCheck('variability', lambda: VAR_SPEC, run_variability, quick=700, thorough=15000),
-    SubCheck('error', lambda: ERR_SPEC, run_error, quick=700, thorough=15000),
+    SubCheck('error', lambda: ERR_SPEC, run_error, quick=600, thorough=15000),
     SubCheck('transit_absorption', lambda: ABS_SPEC, run_transit_absorption, quick=300, thorough=8000),
 ]
